@@ -503,6 +503,22 @@ func main() {
 	}
 	notes = append(notes, lnotes...)
 
+	// ---- ConfigFacts.lean (C18) --------------------------------------------
+	var cf []byte
+	var cnotes []string
+	func() {
+		defer func() {
+			if rec := recover(); rec != nil {
+				cnotes = append(cnotes, fmt.Sprintf("static tie unavailable for the facts of config.Load (extractor: %v); baseline kept", rec))
+				cf, _ = os.ReadFile(filepath.Join(baselineDir, "ConfigFacts.lean"))
+			}
+		}()
+		cf, cnotes = configFacts(cfg)
+	}()
+	if len(cf) > 0 {
+		writeIfChanged(filepath.Join(*out, "ConfigFacts.lean"), cf)
+	}
+
 	// ---- Process.lean (C01, C16) -------------------------------------------
 	var pf []byte
 	var pnotes []string
@@ -519,6 +535,7 @@ func main() {
 		writeIfChanged(filepath.Join(*out, "Process.lean"), pf)
 	}
 	notes = append(notes, pnotes...)
+	notes = append(notes, cnotes...)
 
 	for _, m := range missing {
 		fmt.Println("extract: missing", m)
